@@ -8,6 +8,8 @@ NOTE = ("Trusted base: rustc + kani-compiler codegen, goto-cc/goto-instrument, C
 
 CLAIMED = {
     # id: (level text, design ref, technique)
+    "C16": ("Bounded model checking of deblock() for every enumerated image size with fewer than two rows or fewer than ten columns (and small sizes with edges), symbolic content and strength: no panic / overflow / out-of-bounds, output equals the Annex J model; the strength table equals Table J.2 entry by entry.",
+            "DESIGN.md 3/C16", "bounded model checking of the real code (Kani 0.68 / CBMC 6.11 + CaDiCaL)"),
     "C09": ("Bounded model checking of the compiled deblocking code: both edge kernels are compared with an independent Annex J oracle for all 2^32 sample patterns x 12 strengths (x 8 lanes), and the whole-image function is compared sample-by-sample with 'Annex J horizontally then vertically' for symbolic image contents at enumerated sizes. A SAT verdict over all values inside the bounds; sizes outside the enumerated set are not claimed.",
             "DESIGN.md 3/C09", "bounded model checking of the real code (Kani 0.68 / CBMC 6.11 + CaDiCaL), differential vs. Annex J oracle"),
 }
